@@ -342,10 +342,13 @@ def gen_playback(mirror, root, h):
         except subprocess.TimeoutExpired:
             return None
     txt = open(logf, errors="replace").read()
-    m = re.search(r"```\s*\n(.*?)```", txt, re.S)
-    if not m:
-        return None
-    return m.group(1)
+    # Kani prints one unit test per failed check AND per satisfied cover; take a test generated for a failed
+    # check (its doc comment names the check kind), never one for a cover witness
+    blocks = re.findall(r"```\s*\n(.*?)```", txt, re.S)
+    for b in blocks:
+        if "Check for `cover`" not in b:
+            return b
+    return None
 
 
 def run_playback(root, h, test_text, replay_path):
@@ -368,7 +371,9 @@ def replay_file(root, h, replay_path):
     tname = m.group(1) if m else "kani_concrete_playback"
     pkg = CRATES[h.crate][0]
     res = {}
-    for prof in ("dev", "release"):
+    # `cargo kani playback` has no --release switch (it rejects the flag), so the replay runs in the dev
+    # profile, the one Kani models
+    for prof in ("dev",):
         cmd = ["cargo", "kani", "playback", "-Z", "concrete-playback", "-p", pkg]
         if prof == "release":
             cmd += ["--release"]
@@ -543,10 +548,23 @@ def do_check(root, reg, prop, tier, seed, args):
     results = {}
     group_info = []
     memcap_kb = int(os.environ.get("VERIF_MEMCAP_KB", str(24 * 1024 * 1024)))
-    for (crate, flags), hs in groups.items():
-        # memory, not cores, is the limit on this machine (62 GB, no swap; Layout harnesses take 4-10 GB each)
-        jobs = max(1, min(len(hs), ncpu, int(os.environ.get("VERIF_JOBS", "6"))))
-        js, logf, tdir, wall, rc = run_group(mirror, root, crate, flags, hs, jobs, memcap_kb)
+    # one cargo-kani invocation per (crate, flag set); invocations run concurrently, each with its own
+    # target dir, and share the job budget (memory, not cores, is the limit: 62 GB, no swap)
+    budget = int(os.environ.get("VERIF_JOBS", "6"))
+    ng = max(1, len(groups))
+
+    def _run(item):
+        (crate, flags), hs = item
+        jobs = max(1, min(len(hs), ncpu, max(1, budget // ng)))
+        groot = root if ng == 1 else os.path.join(root, "g-" + (re.sub(r"\W+", "_", flags)[:24] or "std") + "-" + crate)
+        os.makedirs(groot, exist_ok=True)
+        js, logf, tdir, wall, rc = run_group(mirror, groot, crate, flags, hs, jobs, memcap_kb)
+        return (crate, flags, hs, js, logf, tdir, wall, rc)
+
+    from concurrent.futures import ThreadPoolExecutor
+    with ThreadPoolExecutor(max_workers=ng) as ex:
+        outs = list(ex.map(_run, groups.items()))
+    for crate, flags, hs, js, logf, tdir, wall, rc in outs:
         r = parse_results(js, logf, tdir, hs)
         results.update(r)
         group_info.append({"crate": crate, "flags": flags, "harnesses": [h.name for h in hs],
@@ -697,7 +715,7 @@ def write_evidence(prop, tier, seed, sel, results, group_info, violations, known
         },
         "assumptions": assumptions + [
             "bounds: every harness states its container sizes and unwind bound; unwinding assertions are on, nothing is claimed outside the bounds",
-            "Kani models the dev profile (overflow checks on); replays are run natively in dev and release",
+            "Kani models the dev profile (overflow checks on); counterexamples are replayed natively in the dev profile (cargo kani playback has no release switch)",
         ],
         "wall_s": round(wall, 1),
         "violations": len(violations),
